@@ -268,7 +268,8 @@ def make_case(rng, tier, feat=(), corrupt=None, mode=None, py2=False, nframes=No
         n = rng.choice([0, 1, 1, 2, 3, 5, 8]) if not big else rng.choice([90, 300, 1001, 1200])
         items = [gen_item(rng, feat) for _ in range(n)]
         if modelable:
-            # the shapes Model/PyPickle.v describes: tuples, fresh unicode names, 0 <= int < 2^31 or float, protocol 2/3
+            # the shapes Model/PyPickle.v describes: tuples, fresh unicode names, 0 <= int < 2^31 or float, protocol 2/3/4
+            # (protocol 4 bodies below 64 KiB: one FRAME)
             items = [d for d in items if "bad" not in d]
             for d in items:
                 d["outer"] = d["inner"] = "t"
@@ -284,7 +285,7 @@ def make_case(rng, tier, feat=(), corrupt=None, mode=None, py2=False, nframes=No
             proto = rng.choice([0, 1, 2])
             p = py2_pickle(items, proto, rng)
         else:
-            proto = rng.choice([0, 1, 2, 3, 4]) if not modelable else rng.choice([2, 3])
+            proto = rng.choice([0, 1, 2, 3, 4]) if not modelable else (rng.choice([2, 3]) if big else rng.choice([2, 3, 4, 4]))
             if "latin1_p0" in feat:
                 proto = 0
             share = {} if rng.random() < .3 and not modelable else None
@@ -449,12 +450,13 @@ def shrink(case):
 
 
 MANIFEST = {
-    "text": "Theorems (Props/C13.v): decoding (og-rek machine model) what CPython's pickler writes in protocol 2/3 (Gallina model of the pickler, "
-            "compared byte for byte with pickle.dumps on every run) gives back the datapoints, and a connection of any number of such frames hands "
-            "on exactly the equivalent plain-text lines in order (induction over items and frames); per-item conversion and invalid-item counting. "
-            "Tie: real input.NewPickle(d).Handle behind a scripted reader, fed CPython pickles of protocols 0-4, Python-2 style pickles, corrupted "
-            "frames, every segmentation; expected lines computed from the Python-level data.",
-    "note": "partial: protocols 0, 1 and 4, str/long fields, shared objects and segmentation are covered by the differential run against the VM model "
-            "and the Python-level expectation, not by the round-trip theorem (protocol 2/3, non-negative int32 and float fields). bufio and og-rek are "
-            "library code modelled in Model/PickleVM.v. Four library-level defects are recorded as known findings. Trusted: Coq kernel+VM.",
+    "text": "Theorems (Props/C13.v): decoding (og-rek machine model) what CPython's pickler writes in protocol 2, 3 and 4 (Gallina models of the "
+            "pickler, compared byte for byte with pickle.dumps on every run) gives back the datapoints, and a connection of any number of such "
+            "frames, protocols mixed, hands on exactly the equivalent plain-text lines in order (induction over items and frames); per-item "
+            "conversion and invalid-item counting. Tie: real input.NewPickle(d).Handle behind a scripted reader, fed CPython pickles of "
+            "protocols 0-4, Python-2 style pickles, corrupted frames, every segmentation; expected lines computed from the Python-level data.",
+    "note": "partial: protocols 0 and 1, str/long fields, shared objects, multi-frame protocol-4 pickles and segmentation are covered by the "
+            "differential run against the VM model and the Python-level expectation, not by the round-trip theorem (protocols 2/3/4, non-negative "
+            "int32 and float fields, names below 2^31 bytes). bufio and og-rek are library code modelled in Model/PickleVM.v. Four library-level "
+            "defects are recorded as known findings. Trusted: Coq kernel+VM.",
 }
